@@ -220,7 +220,7 @@ def run(rep, tier, pool, variants=("shipped",)):
             rep.count("macro:" + kind)
             if o.get("ok"):
                 continue
-            if o.get("k") in ("hang", "crash", "worker-exc"):
+            if o.get("k") in ("hang", "crash", "worker-exc", "not-run"):
                 rep.count("infra:" + o["k"])
                 continue
             fid = classify(kind, o)
